@@ -525,6 +525,107 @@ pub mod core {
 #[cfg(feature = "python")]
 mod py;
 
+/// Verification hooks: thin wrappers around internal functions, no behaviour of their own.
+/// Only compiled with the cargo feature `verif`.
+#[cfg(feature = "verif")]
+pub mod verif {
+    use crate::common::{alc, fdtinstance, lct, oti, partition, pkt, Profile};
+    use std::time::SystemTime;
+
+    /// `common::partition::block_partitioning`
+    pub fn block_partitioning(b: u64, l: u64, e: u64) -> (u64, u64, u64, u64) {
+        partition::block_partitioning(b, l, e)
+    }
+
+    /// `common::partition::block_length`
+    pub fn block_length(
+        a_large: u64,
+        a_small: u64,
+        nb_a_large: u64,
+        l: u64,
+        e: u64,
+        sbn: u32,
+    ) -> u64 {
+        partition::block_length(a_large, a_small, nb_a_large, l, e, sbn)
+    }
+
+    /// Fields of the internal `common::pkt::Pkt`
+    #[derive(Debug, Clone)]
+    pub struct PktFields {
+        /// payload
+        pub payload: Vec<u8>,
+        /// transfer length
+        pub transfer_length: u64,
+        /// encoding symbol id
+        pub esi: u32,
+        /// source block number
+        pub sbn: u32,
+        /// transport object identifier
+        pub toi: u128,
+        /// FDT instance id (TOI 0 only)
+        pub fdt_id: Option<u32>,
+        /// content encoding
+        pub cenc: lct::Cenc,
+        /// add EXT_CENC
+        pub inband_cenc: bool,
+        /// close object flag
+        pub close_object: bool,
+        /// source block length
+        pub source_block_length: u32,
+        /// add EXT_TIME
+        pub sender_current_time: bool,
+    }
+
+    /// `common::alc::new_alc_pkt`
+    pub fn new_alc_pkt(
+        oti: &oti::Oti,
+        cci: &u128,
+        tsi: u64,
+        fields: &PktFields,
+        profile: Profile,
+        now: SystemTime,
+    ) -> Vec<u8> {
+        let pkt = pkt::Pkt {
+            payload: fields.payload.clone(),
+            transfer_length: fields.transfer_length,
+            esi: fields.esi,
+            sbn: fields.sbn,
+            toi: fields.toi,
+            fdt_id: fields.fdt_id,
+            cenc: fields.cenc,
+            inband_cenc: fields.inband_cenc,
+            close_object: fields.close_object,
+            source_block_length: fields.source_block_length,
+            sender_current_time: fields.sender_current_time,
+        };
+        alc::new_alc_pkt(oti, cci, tsi, &pkt, profile, now)
+    }
+
+    /// `common::alc::new_alc_pkt_close_session`
+    pub fn new_alc_pkt_close_session(cci: &u128, tsi: u64) -> Vec<u8> {
+        alc::new_alc_pkt_close_session(cci, tsi)
+    }
+
+    /// Parse an FDT instance the way the receiver does and evaluate the receiver-side
+    /// accessors (expiry, OTI, lengths, cache control) on the instance and every File.
+    /// Returns the number of File entries.
+    pub fn fdt_probe(xml: &[u8]) -> crate::error::Result<usize> {
+        let instance = fdtinstance::FdtInstance::parse(xml)?;
+        let expires = instance.get_expiration_date();
+        let _ = instance.get_oti();
+        let mut n = 0;
+        if let Some(files) = instance.file.as_ref() {
+            for file in files {
+                let _ = instance.get_oti_for_file(file);
+                let _ = file.get_transfer_length();
+                let _ = file.get_object_cache_control(expires);
+                n += 1;
+            }
+        }
+        Ok(n)
+    }
+}
+
 #[cfg(test)]
 mod tests {
     pub fn init() {
